@@ -6,19 +6,29 @@ REPO_SRCS = ["base/catch_throw.cpp", "base/backtrace.cpp", "event"]      # event
 # (scenario, min, max).  Scripts (harness.cpp): 0 submit+status, 1 cancel, 2 three tasks two priorities, 3 retirement + stale token of a finished task,
 # 4 cancel/status racing the pick, 5 cleanup idle pool then re-initialise, 6 queue then cleanup, 7 cancel in the middle of one priority,
 # 8 initialize on a ready pool / invalid arguments / cleanup with queued+executing work / re-initialise with min 0 / stale tokens,
-# 10 a task body submits and queries another task, 11 gate: boundary and out-of-range priorities queue up behind a busy single worker,
+# 9 second cleanup() in a row / refused submission / three life cycles, 10 a task body submits and queries another task,
+# 11 gate: boundary and out-of-range priorities queue up behind a busy single worker, every status/cancel answer pinned, waiters at both boundary levels cancelled,
+# 12 two client threads at once (a worker's body and main), 13 a body that throws, 14 completion callback submits + queries, 15 completion callback calls cleanup(),
 # 50+k = script k ended by the destructor instead of cleanup().
 POOL = [(0,0,1),(0,1,1),(0,1,2),(1,1,1),(1,0,1),(1,0,2),(2,1,1),(2,0,2),(2,2,2),(3,0,1),(3,0,2),(4,1,1),(4,0,2),(5,1,1),(5,0,1),(6,1,1),(6,0,2),(7,1,1),(7,0,1),
-        (8,1,1),(8,0,1),(8,0,2),(8,2,2),(10,0,1),(10,1,1),(10,0,2),(11,1,1),(11,0,1),(50,0,1),(56,1,1),(56,0,2)]
-# work thread: 100..102 as 0..2, 103 explicit per-task loop next to the default loop, 104 body submits a task, 105 no default loop, 150+k = destructor only
-WT = [(100,0,1),(101,0,1),(102,0,1),(103,0,1),(104,0,1),(105,0,1),(150,0,1),(151,0,1)]
+        (8,1,1),(8,0,1),(8,0,2),(8,2,2),(9,1,1),(9,0,2),(10,0,1),(10,1,1),(10,0,2),(11,1,1),(11,0,1),(12,1,1),(12,0,2),(13,1,1),(13,0,1),(14,0,1),(14,0,2),(15,1,1),(15,0,2),
+        (50,0,1),(56,1,1),(56,0,2),(58,0,2),
+        (1003,0,1),(1007,1,1),(1008,0,1),      # 1000+k: script k with ObjectPool keep_number_ = 1 (one block recycled, the next really freed)
+        (2002,1,1)]                             # 2000+k: script k with the task cabinet's id counter preset one below its wrap-around
+# work thread: 100..102 as 0..2, 103 explicit per-task loop next to the default loop, 104 body submits a task, 105 no default loop, 106 a body that throws,
+# 107 refused submission / status / cancel / second cleanup() on a cleaned-up work thread, 150+k = destructor only
+WT = [(100,0,1),(101,0,1),(102,0,1),(103,0,1),(104,0,1),(105,0,1),(106,0,1),(107,0,1),(150,0,1),(151,0,1)]
 # 200 / 201: pool / work thread handing completion callbacks to the REAL epoll loop while it is not running, then the loop runs
-REAL = [(200,0,2),(200,1,1),(201,0,1)]
-HALF_DEADLINE = {(8,0,2),(8,2,2),(10,0,2),(56,0,2)}      # large at the thorough bounds: they get half the deadline so the tier's wall time stays bounded
+# 202: the real loop sleeps until the worker wakes it, then task 0's completion callback submits and queries task 1
+REAL = [(200,0,2),(200,1,1),(201,0,1),(202,0,1)]
+HALF_DEADLINE = {(8,0,2),(8,2,2),(10,0,2),(56,0,2),(58,0,2),(12,0,2),(15,0,2)}      # large at the thorough bounds: they get half the deadline so the tier's wall time stays bounded
+# quick tier only: the plain-build bound of the one configuration that used to take as long as all others together (>100k schedules at bound 2, it hit its deadline on a busy machine);
+# min=max=2 is still searched at bound 2 through script 8, and the thorough tier is unchanged
+QUICK_PLAIN_BOUND = {(2,2,2): 1}
 SPUR = {"s0_0_1", "s0_1_2", "s2_1_1", "s6_1_1", "s8_0_1", "s100_0_1", "s102_0_1"}      # configurations of the spurious-wake-up lane
-def cmds(exe, bound, tagp, only, dl):
+def cmds(exe, bound, tagp, only, dl, cap=None):
     order = sorted(POOL + WT + REAL, key=lambda s: (-s[2], s[0]))      # two-worker configurations first (longest jobs first)
-    c = [("%s:s%d_%d_%d" % ((tagp,) + s), [exe, str(s[0]), str(s[1]), str(s[2]), str(bound)],
+    c = [("%s:s%d_%d_%d" % ((tagp,) + s), [exe, str(s[0]), str(s[1]), str(s[2]), str(min(bound, (cap or {}).get(s, bound)))],
           {"VERIF_DEADLINE_S": str(dl // 2)} if (s in HALF_DEADLINE and dl > 200) else None) for s in order]
     return [x for x in c if not only or x[0].split(":")[1] == only]
 def main(tier, args):
@@ -30,7 +40,7 @@ def main(tier, args):
     bp, ba, bt, dl = (2, 1, 1, 100) if tier == "quick" else (3, 2, 2, 1200)
     res = vf.Result(); log = open(vf.BUILD + "/C05/log.txt", "w")
     env = {"VERIF_DEADLINE_S": str(dl), "VERIF_WORKERS": "4"}
-    vf.run_procs(res, cmds(plain, bp, "plain", args.only, dl), env=env, log=log, jobs=6)
+    vf.run_procs(res, cmds(plain, bp, "plain", args.only, dl, QUICK_PLAIN_BOUND if tier == "quick" else None), env=env, log=log, jobs=6)
     # spurious condition-variable wake-ups as one extra deviation (engine option SCHED_SPURIOUS): a wait that lost its predicate shows here only
     spur = [c for c in cmds(plain, 1 if tier == "quick" else 2, "spur", args.only, dl) if c[0].split(":")[1] in SPUR]
     vf.run_procs(res, spur, env=dict(env, SCHED_SPURIOUS="1"), log=log, jobs=6)
@@ -39,12 +49,13 @@ def main(tier, args):
     vf.finish(PID, tier, res, t0,
               rule="stateless DFS over all interleavings at mutex/condvar/thread operations of the real ThreadPool/WorkThread, fork per execution, "
                    "%d scenario x (min,max) configurations (scripts of initialize [also on a ready pool and with invalid arguments], execute through both the && and the const& overloads "
-                   "with priorities -9..7 incl. both boundary levels, getTaskStatus/cancel [also with the stale token of a finished or dropped task], snapshot, loop drain, "
-                   "a task body that itself submits and queries a task, cleanup with queued/executing work followed by re-initialisation with fewer resident workers, "
-                   "cleanup() or the destructor alone as the end; WorkThread with default, explicit per-task and no default loop; pool and work thread handing callbacks to the REAL epoll loop while it is not running); "
-                   "preemptions+deviations <= %d (plain build), <= %d (ASan/UBSan build, task objects de-pooled), <= %d (ThreadSanitizer under the scheduler: every explored schedule is race-checked); 7 configurations again with one spurious condition-variable wake-up per execution as a further deviation kind (bound 1 quick, 2 thorough); "
+                   "with priorities -9..7 incl. both boundary levels, execute on an object that is not ready (before initialize, after cleanup: must be refused), getTaskStatus/cancel [also with the token of a finished or dropped task or of an ended life cycle, and of waiting tasks at both boundary levels], snapshot, loop drain, "
+                   "a task body that itself submits and queries a task - also while the main thread submits/cancels/snapshots -, a body that throws, a completion callback that submits and queries the next task or calls cleanup(), "
+                   "cleanup with queued/executing work followed by re-initialisation with fewer resident workers, cleanup() twice, three life cycles, "
+                   "cleanup() or the destructor alone as the end; WorkThread with default, explicit per-task and no default loop; pool and work thread handing callbacks to the REAL epoll loop while it is not running or asleep; ObjectPool recycling as shipped in the plain/TSan builds, keep_number_=1 in three configurations; cabinet id counter preset to its wrap-around in one); "
+                   "preemptions+deviations <= %d (plain build; quick tier: <= 1 for script 2 with min=max=2), <= %d (ASan/UBSan build, task objects de-pooled), <= %d (ThreadSanitizer under the scheduler: every explored schedule is race-checked); 7 configurations again with one spurious condition-variable wake-up per execution as a further deviation kind (bound 1 quick, 2 thorough); "
                    "a state = one complete schedule; outcomes = distinct (answers, per-task counts). Oracle per schedule against the harness's own record of accepted/started/finished/cancelled: "
-                   "exactly-once on a worker, callback once on its loop's thread after the body, answers consistent in both directions, pick order by (priority, submission) decided from the submitted priorities, "
+                   "exactly-once on a worker, callback once on its loop's thread after the body, answers consistent in both directions (never waiting once started, never not-found/executing wrongly while the body provably runs or after cleanup ended the life cycle, executing => it starts; every answer pinned while a gate holds the only worker), a refused task never runs, tokens distinct, pick order by (priority, submission) decided from the submitted priorities, "
                    "a worker reaches the loop only through runInLoop (run() resolves to the loop-thread-only runNext() while the loop is not draining), bodies <= max, nothing runs or starts and no thread other than main is alive once cleanup()/destructor returned and the loop was drained, no worker post after that return; deadlock/horizon = violation"
                    % (len(POOL + WT + REAL), bp, ba, bt),
               assumptions=["sync points = pthread mutex/cond/create/join (cpp-tbox uses no atomics here)",
